@@ -85,8 +85,19 @@ struct MultisetCase {
     splits: Vec<Vec<u16>>,
 }
 
+/// Items whose SHA3-256 digest has a 32-bit word at or above its column's prime (the chance for a
+/// random item is about 1.8e-7), found once by brute force with `c14 mine` using the sha3 crate
+/// only.  They put the hash-reduction edge inside the generator's reach.
+const MINED: &str = include_str!("../mined_items.txt");
+
+fn mined_items() -> Vec<Vec<u8>> {
+    MINED.lines().filter(|l| !l.is_empty() && !l.starts_with('#')).map(|l| l.split_whitespace().next().unwrap().as_bytes().to_vec()).collect()
+}
+
 fn item_strategy() -> impl Strategy<Value = Vec<u8>> {
+    let mined = mined_items();
     prop_oneof![
+        2 => any::<u16>().prop_map(move |s| mined[vcore::gens::sel(s, mined.len())].clone()),
         2 => Just(vec![]),
         4 => prop::collection::vec(any::<u8>(), 0..8),
         3 => prop::collection::vec(any::<u8>(), 0..80),
@@ -147,6 +158,12 @@ impl Property for Multisets {
         }
         if has_empty {
             o.label("empty-item");
+        }
+        if c.items.iter().any(|it| {
+            let d = Sha3_256::digest(it);
+            (0..8).any(|i| u32::from_le_bytes([d[4 * i], d[4 * i + 1], d[4 * i + 2], d[4 * i + 3]]) as u64 >= PRIMES[i])
+        }) {
+            o.label("item-with-hash-word-at-or-above-prime");
         }
         // forward order
         let mut fwd = Setsum::default();
@@ -568,6 +585,43 @@ impl Part for PyDiff {
     }
 }
 
+/// `c14 mine <count> <threads>`: print items whose digest has a word >= its prime.
+fn mine(args: &[String]) -> i32 {
+    let want: usize = args.first().and_then(|s| s.parse().ok()).unwrap_or(10);
+    let threads: u64 = args.get(1).and_then(|s| s.parse().ok()).unwrap_or(16);
+    let found = std::sync::Arc::new(std::sync::Mutex::new(Vec::<String>::new()));
+    let mut hs = vec![];
+    for t in 0..threads {
+        let found = std::sync::Arc::clone(&found);
+        hs.push(std::thread::spawn(move || {
+            let mut n = 0u64;
+            loop {
+                if found.lock().unwrap().len() >= want {
+                    return;
+                }
+                for _ in 0..100_000 {
+                    let item = format!("mined-{t}-{n}");
+                    n += 1;
+                    let d = Sha3_256::digest(item.as_bytes());
+                    for i in 0..8 {
+                        let w = u32::from_le_bytes([d[4 * i], d[4 * i + 1], d[4 * i + 2], d[4 * i + 3]]) as u64;
+                        if w >= PRIMES[i] {
+                            found.lock().unwrap().push(format!("{item} column={i} word=p+{}", w - PRIMES[i]));
+                        }
+                    }
+                }
+            }
+        }));
+    }
+    for h in hs {
+        let _ = h.join();
+    }
+    for l in found.lock().unwrap().iter() {
+        println!("{l}");
+    }
+    0
+}
+
 fn main() {
     let check = Check::new(
         "C14",
@@ -581,5 +635,5 @@ fn main() {
     .pbt(Algebra { canon: false })
     .pbt(Framing)
     .part(PyDiff);
-    vcore::main_with(vec![check], &[]);
+    vcore::main_with(vec![check], &[("mine", mine)]);
 }
